@@ -46,7 +46,16 @@ type Task struct {
 	cond     func() bool
 	Name     string
 	waitOn   string // what a kernel-parked task waits for (diagnostics)
+	// lag: simulated time this task has lost to the simulator itself (injected stalls, and
+	// waiting to be scheduled while ready); oracles that bound how long an operation of
+	// the code under test may take subtract it
+	lag     time.Duration
+	readyAt time.Time
 }
+
+// SelfLag returns the simulated time the calling task has lost so far to injected stalls
+// and to waiting for the scheduler while ready.
+func (w *World) SelfLag() time.Duration { return w.self("").lag }
 
 // SetWait labels what the task is about to block on (diagnostics only).
 func (t *Task) SetWait(what string) { t.waitOn = what }
@@ -319,6 +328,9 @@ func (w *World) markReadyLocked(t *Task) {
 	if t.state == stDead {
 		return
 	}
+	if t.state != stReady {
+		t.readyAt = time.Now()
+	}
 	t.state = stReady
 	w.ready[t] = struct{}{}
 	select {
@@ -355,6 +367,10 @@ func (w *World) park(t *Task) {
 	if tok == tokKill {
 		t.dying = true
 		runtime.Goexit()
+	}
+	if !t.readyAt.IsZero() {
+		t.lag += time.Since(t.readyAt)
+		t.readyAt = time.Time{}
 	}
 }
 
@@ -541,6 +557,7 @@ func (w *World) yield(t *Task) {
 			w.running = nil
 			w.mu.Unlock()
 			w.logf("stall %s %v", t.ID, d)
+			t.lag += d
 			time.Sleep(d)
 		}
 	}
